@@ -46,13 +46,14 @@ var (
 const oneWay = 10 * time.Millisecond
 
 type scnSpec struct {
-	client string // plain | chrome
+	client string // plain | chrome | uplain | firefox
 	retry  bool
 	vn     string // none | ok | fail
 	chain  string // short | long
 	zrtt   string // none | accept | reject | reject-params (session resumption with 0-RTT data)
 	net    string // ok | blackhole | hsblock: paths on which the handshake cannot complete (timeouts)
 	cancel string // none | t<ms> | vn | retry | first: when the application cancels the dial context
+	zsize  string // resumption scenarios: size class of the early data - small (default) | cwnd | window
 	psk    string // resumption scenarios with a spec-driven (parrot) client: what the scenario appends to the preset ClientHelloSpec - none | psk (pre_shared_key) | psked (early_data + pre_shared_key)
 }
 
@@ -1235,6 +1236,8 @@ type outcome struct {
 	cleft    int
 	sleft    int
 	redial   string
+	taint    string   // parts of the caller's spec that hold a connection ID of one of the case's connections
+	specs    []string // deep snapshots of the caller's QUICSpec value: before the dial, after it, after the second dial
 	deadline string
 	ztxt     string
 	monoNow  int64
@@ -1244,6 +1247,9 @@ func (o *outcome) txt() string {
 	z := ""
 	if o.ztxt != "" {
 		z = " " + o.ztxt
+	}
+	if len(o.specs) > 0 {
+		z += " taint=" + o.taint + " specs=" + strings.Join(o.specs, "|")
 	}
 	return z2(fmt.Sprintf("dial=%s hang=%s t=%d bound=%d att=%d vers=%s cv=%d sv=%d calpn=%s salpn=%s c0=%s s0=%s cids=%s ccids=%s acc=%s echo=%s cleft=%d sleft=%d redial=%s clag=%d leaked=%s",
 		o.dial, boolTxt(o.hang), o.t.Nanoseconds(), o.bound.Nanoseconds(), o.attempts, o.vers, o.cv, o.sv, o.calpn, o.salpn, boolTxt(o.c0), boolTxt(o.s0), o.cids, o.ccids, o.acc, o.echo, o.cleft, o.sleft, o.redial, o.clag, boolTxt(o.leaked)), z)
@@ -1320,13 +1326,20 @@ func (sc *scenario) run() (out *outcome) {
 	}
 	sc.ctr = &quic.Transport{Conn: cpc}
 	var utr *quic.UTransport
-	if sc.spec.client == "chrome" {
-		spec, err := quic.QUICID2Spec(quic.QUICChrome_115_IPv4)
+	if sc.spec.client == "chrome" || sc.spec.client == "firefox" {
+		id := quic.QUICChrome_115_IPv4
+		if sc.spec.client == "firefox" {
+			id = quic.QUICFirefox_116
+		}
+		spec, err := quic.QUICID2Spec(id)
 		if err != nil {
 			out.dial = "E:setup"
 			return
 		}
+		// ONE spec value for every connection of the case: the dial, the connection re-created after Version
+		// Negotiation, the second dial on the same UTransport
 		utr = &quic.UTransport{Transport: sc.ctr, QUICSpec: &spec}
+		out.specs = append(out.specs, specSnapshot(utr.QUICSpec))
 	} else if sc.spec.client == "uplain" {
 		utr = &quic.UTransport{Transport: sc.ctr} // no QUICSpec: the plain connection, dialed through UTransport.doDial
 	}
@@ -1446,6 +1459,9 @@ func (sc *scenario) run() (out *outcome) {
 	}
 	out.leaked = leaked
 	time.Sleep(time.Microsecond) // settle (the delivery goroutine owns synctest.Wait)
+	if utr != nil && utr.QUICSpec != nil && !leaked {
+		out.specs = append(out.specs, specSnapshot(utr.QUICSpec))
+	}
 	sc.noteConns()
 	sc.mu.Lock()
 	conns := append([]*quic.Conn(nil), sc.conns...)
@@ -1568,6 +1584,25 @@ func (sc *scenario) run() (out *outcome) {
 		if r2.err == nil {
 			r2.c.CloseWithError(0, "")
 		}
+		if utr != nil && utr.QUICSpec != nil && !leaked {
+			time.Sleep(time.Microsecond)
+			out.specs = append(out.specs, specSnapshot(utr.QUICSpec))
+		}
+	}
+	if utr != nil && utr.QUICSpec != nil && !leaked {
+		// per-connection state left behind in the caller's spec: a source connection ID one of the case's
+		// connections used on the wire
+		var scids [][]byte
+		sc.nw.mu.Lock()
+		for _, d := range sc.nw.c2s {
+			if len(d) > 0 && wire.IsLongHeaderPacket(d[0]) {
+				if hdr, _, _, err := wire.ParsePacket(d); err == nil && !contains(scids, hdr.SrcConnectionID.Bytes()) {
+					scids = append(scids, hdr.SrcConnectionID.Bytes())
+				}
+			}
+		}
+		sc.nw.mu.Unlock()
+		out.taint = specTaint(utr.QUICSpec, scids)
 	}
 	time.Sleep(2 * time.Second)
 	ln.Close()
